@@ -106,3 +106,40 @@ Theorem header_then_series h s r : wf_header h -> wf_series s ->
   dec_header (enc_header h ++ enc_series s ++ r) = Ok h (enc_series s ++ r) /\
   dec_series (enc_series s ++ r) = Ok s r.
 Proof. intros H1 H2. split; [apply header_roundtrip|apply series_roundtrip]; assumption. Qed.
+
+(** the exact size a header prefix of at least 16 bytes asks for *)
+Theorem header_truncated_want h k : wf_header h -> 16 <= k < zlen (enc_header h) ->
+  dec_header (firstn (Z.to_nat k) (enc_header h)) = Want (16 + h_count h * 12).
+Proof.
+  intros (Hm & Hx & Hmr & Hc & Hcb & Hai & Hv) Hk.
+  pose proof (valid_method_range _ Hm) as Hmrange. pose proof (valid_xff_range _ Hx) as Hxr.
+  pose proof (zlen_nonneg (h_arcs h)) as Hn. pose proof (enc_header_len h) as Htot.
+  unfold dec_header. rewrite zlen_firstn by lia.
+  destruct (Z.ltb_spec k 16) as [Hk16|Hk16]; [lia|].
+  set (full := enc_header h).
+  rewrite get32_firstn by lia.
+  rewrite (get32_skip_firstn full 4) by lia. rewrite (get32_skip_firstn full 8) by lia.
+  rewrite (get32_skip_firstn full 12) by lia.
+  set (tail := flat_map enc_ainfo (h_arcs h)).
+  assert (Hfull : full = be32 (u32 (h_method h)) ++ be32 (u32 (h_maxret h)) ++ be32 (h_xff h) ++ be32 (h_count h) ++ tail).
+  { unfold full, enc_header, enc_dur. rewrite <- ?app_assoc. reflexivity. }
+  assert (H0 : get32 full = h_method h).
+  { rewrite Hfull. rewrite get32_be32 by apply u32_range. apply u32_small. lia. }
+  assert (H8 : get32 (skipn 8 full) = h_xff h).
+  { rewrite Hfull.
+    replace (skipn 8 (be32 (u32 (h_method h)) ++ be32 (u32 (h_maxret h)) ++ be32 (h_xff h) ++ be32 (h_count h) ++ tail))
+      with (be32 (h_xff h) ++ be32 (h_count h) ++ tail) by reflexivity.
+    apply get32_be32. assumption. }
+  assert (H12 : get32 (skipn 12 full) = h_count h).
+  { rewrite Hfull.
+    replace (skipn 12 (be32 (u32 (h_method h)) ++ be32 (u32 (h_maxret h)) ++ be32 (h_xff h) ++ be32 (h_count h) ++ tail))
+      with (be32 (h_count h) ++ tail) by reflexivity.
+    apply get32_be32. unfold MaxInt32 in *. lia. }
+  rewrite H0, H8, H12, Hm, Hx. cbn [negb].
+  destruct (Z.gtb_spec (h_count h * 12) MaxInt32); [lia|].
+  assert (Hrest : zlen (skipn 16 (firstn (Z.to_nat k) full)) = k - 16).
+  { rewrite zlen_skipn_nat; [rewrite zlen_firstn by (fold full in Hk; lia); lia|].
+    rewrite firstn_length. fold full in Hk. unfold zlen in *. lia. }
+  rewrite Hrest.
+  destruct (Z.ltb_spec (k - 16) (h_count h * 12)); [reflexivity|]. subst full. lia.
+Qed.
